@@ -16,7 +16,7 @@ By import-time introspection and Python `ast` of the sources it emits
 Fail-closed: whatever is not recognised becomes COpaque / an opaque factory / an entry in
 `errors`; nothing is skipped silently.  Every item carries file, line range and sha256 of its source.
 """
-import ast, hashlib, inspect, json, os, sys, textwrap, logging
+import ast, copy, hashlib, inspect, json, os, sys, textwrap, logging
 
 logging.disable(logging.CRITICAL)
 
@@ -438,6 +438,17 @@ except Exception as e:  # noqa
 #   EXPR    := P | CONST | P.attr | P.meth() | f(P) with f in bytes,int,bool,list | K(P).attr (helper constructor)
 #            | C1 if P[.meth()] else C2 | t.attr (alias)
 # A parameter value is seen by the model only through the projections used ("": itself, ".a", ".m()", "f()", "K().a").
+#
+# Before recognition the body is NORMALISED (`normalise_factory`), so that harmless refactorings give the same factory:
+#   * calls of module-level functions of the factory's own module and of private (_x / __x) methods of its class are
+#     inlined, transitively (depth <= 4), when the callee is an "expression function" (if/else and early returns only:
+#     becomes a conditional expression) or, for `[return] self._h(msg, ...)`, a "statement helper" whose body acts on
+#     its first parameter and returns it;
+#   * `if C: t = A else: t = B` becomes `t = A if C else B`; a local bound once to an expression is substituted into its
+#     uses (the message local, bound to the bound(...)(...) call, is kept);
+#   * `if C: return msg` followed by statements becomes `if not C: statements` (early return vs if/else);
+#   * a bare module-level name used as a constant must be assigned exactly once in its module.
+# Nothing is guessed: whatever does not normalise stays as it is and then fails recognition (opaque factory).
 class Opaque(Exception):
     pass
 
@@ -464,6 +475,248 @@ def jval(v):
 
 def names_in(node):
     return {n.id for n in ast.walk(node) if isinstance(n, ast.Name)}
+
+
+class NotInlinable(Exception):
+    pass
+
+
+class _Subst(ast.NodeTransformer):
+    def __init__(self, mapping):
+        self.m = mapping
+
+    def visit_Name(self, n):
+        if isinstance(n.ctx, ast.Load) and n.id in self.m:
+            return copy.deepcopy(self.m[n.id])
+        return n
+
+
+def _subst(node, mapping):
+    return _Subst(mapping).visit(copy.deepcopy(node))
+
+
+def _terminates(stmts):
+    if not stmts:
+        return False
+    last = stmts[-1]
+    if isinstance(last, ast.Return):
+        return True
+    if isinstance(last, ast.If):
+        return _terminates(last.body) and _terminates(last.orelse)
+    return False
+
+
+def _stmts_to_expr(stmts):
+    """body of an expression function (local lets, if/else, early returns) -> one expression"""
+    if not stmts:
+        return ast.Constant(value=None)
+    s0, rest = stmts[0], stmts[1:]
+    if isinstance(s0, ast.Return):
+        return s0.value if s0.value is not None else ast.Constant(value=None)
+    if isinstance(s0, ast.If):
+        tb = s0.body if _terminates(s0.body) else s0.body + rest
+        eb = s0.orelse if (s0.orelse and _terminates(s0.orelse)) else s0.orelse + rest
+        return ast.IfExp(test=s0.test, body=_stmts_to_expr(tb), orelse=_stmts_to_expr(eb))
+    if isinstance(s0, ast.Assign) and len(s0.targets) == 1 and isinstance(s0.targets[0], ast.Name):
+        name = s0.targets[0].id
+        if any(isinstance(n, ast.Name) and n.id == name and isinstance(n.ctx, ast.Store) for st in rest for n in ast.walk(st)):
+            raise NotInlinable("local rebound")
+        return _stmts_to_expr([_subst(st, {name: s0.value}) for st in rest])
+    raise NotInlinable("statement " + type(s0).__name__)
+
+
+def _resolve_callee(call, glob, regcls):
+    """function object called, if it is a module-level function of the factory's module or a private method of its class"""
+    f = call.func
+    if isinstance(f, ast.Name):
+        obj = glob.get(f.id)
+        if inspect.isfunction(obj) and obj.__globals__ is glob and not f.id.startswith("create_"):
+            return obj, False
+    if isinstance(f, ast.Attribute) and isinstance(f.value, ast.Name) and f.value.id == "self" and f.attr.startswith("_") \
+            and not f.attr.endswith("__"):
+        for k in regcls.__mro__:
+            for nm in (f.attr, "_%s%s" % (k.__name__.lstrip("_"), f.attr)):
+                obj = k.__dict__.get(nm)
+                if inspect.isfunction(obj) and obj.__globals__ is glob:
+                    return obj, True
+    return None, False
+
+
+def _bind_args(callee, is_method, call):
+    node, body = fn_ast(callee)
+    a = node.args
+    if a.vararg or a.kwarg or a.kwonlyargs or a.posonlyargs or any(isinstance(x, ast.Starred) for x in call.args) \
+            or any(k.arg is None for k in call.keywords):
+        raise NotInlinable("signature")
+    names = [x.arg for x in a.args][1 if is_method else 0:]
+    if len(call.args) > len(names):
+        raise NotInlinable("arity")
+    m = dict(zip(names, call.args))
+    for k in call.keywords:
+        if k.arg not in names or k.arg in m:
+            raise NotInlinable("keyword")
+        m[k.arg] = k.value
+    defaults = dict(zip([x.arg for x in a.args][len(a.args) - len(a.defaults):], a.defaults))
+    for n in names:
+        if n not in m:
+            if n not in defaults:
+                raise NotInlinable("missing argument")
+            m[n] = defaults[n]
+    stored = {n.id for st in body for n in ast.walk(st) if isinstance(n, ast.Name) and isinstance(n.ctx, ast.Store)}
+    if stored & set(names):
+        raise NotInlinable("parameter rebound")
+    return names, m, body, stored
+
+
+class _InlineExprCalls(ast.NodeTransformer):
+    """replace calls of expression functions by their (substituted) body, transitively"""
+    def __init__(self, glob, regcls, used, depth=0):
+        self.glob, self.regcls, self.used, self.depth = glob, regcls, used, depth
+
+    def visit_Call(self, call):
+        self.generic_visit(call)
+        callee, is_method = _resolve_callee(call, self.glob, self.regcls)
+        if callee is None or self.depth >= 4:
+            return call
+        try:
+            names, m, body, _stored = _bind_args(callee, is_method, call)
+            e = _stmts_to_expr(copy.deepcopy(body))
+        except NotInlinable:
+            return call
+        e = _subst(e, m)
+        self.used.append(callee)
+        return _InlineExprCalls(self.glob, self.regcls, self.used, self.depth + 1).visit(e)
+
+
+def _negate(test):
+    if isinstance(test, ast.Compare) and len(test.ops) == 1 and isinstance(test.ops[0], (ast.Is, ast.IsNot)):
+        return ast.Compare(left=test.left, ops=[ast.IsNot() if isinstance(test.ops[0], ast.Is) else ast.Is()], comparators=test.comparators)
+    if isinstance(test, ast.UnaryOp) and isinstance(test.op, ast.Not):
+        return test.operand
+    return ast.UnaryOp(op=ast.Not(), operand=test)
+
+
+def _is_bound_call(c):
+    return isinstance(c, ast.Call) and isinstance(c.func, ast.Call) and isinstance(c.func.func, ast.Attribute) and c.func.func.attr == "bound"
+
+
+def normalise_factory(body, glob, regcls, pnames, used):
+    body = copy.deepcopy(body)
+    # (1) statement helpers:  [return] self._h(msg, ...)  /  msg = self._h(msg, ...)
+    for _round in range(4):
+        out, changed = [], False
+        for st in body:
+            call, ret = None, False
+            if isinstance(st, ast.Return) and isinstance(st.value, ast.Call):
+                call, ret = st.value, True
+            elif isinstance(st, ast.Expr) and isinstance(st.value, ast.Call):
+                call = st.value
+            elif isinstance(st, ast.Assign) and len(st.targets) == 1 and isinstance(st.targets[0], ast.Name) and isinstance(st.value, ast.Call) \
+                    and st.value.args and isinstance(st.value.args[0], ast.Name) and st.value.args[0].id == st.targets[0].id:
+                call = st.value
+            callee = None
+            if call is not None and not _is_bound_call(call) and call.args and isinstance(call.args[0], ast.Name) and call.args[0].id not in pnames:
+                callee, is_method = _resolve_callee(call, glob, regcls)
+            if callee is not None:
+                try:
+                    names, m, hbody, stored = _bind_args(callee, is_method, call)
+                    try:
+                        _stmts_to_expr(copy.deepcopy(hbody))
+                        is_expr = True
+                    except NotInlinable:
+                        is_expr = False
+                    hb = list(hbody)
+                    if hb and isinstance(hb[-1], ast.Return):
+                        if not (isinstance(hb[-1].value, ast.Name) and hb[-1].value.id == names[0]):
+                            raise NotInlinable("helper does not return its first parameter")
+                        hb = hb[:-1]
+                    elif ret:
+                        raise NotInlinable("helper returns nothing")
+                    if is_expr or any(isinstance(n, ast.Return) for s_ in hb for n in ast.walk(s_)) or (stored & (set(pnames) | {call.args[0].id})):
+                        raise NotInlinable("not a statement helper")
+                    out += [_subst(s_, m) for s_ in hb]
+                    if ret:
+                        out.append(ast.Return(value=ast.Name(id=call.args[0].id, ctx=ast.Load())))
+                    used.append(callee)
+                    changed = True
+                    continue
+                except NotInlinable:
+                    pass
+            out.append(st)
+        body = out
+        if not changed:
+            break
+    # (2) expression helpers, everywhere
+    tr = _InlineExprCalls(glob, regcls, used)
+    body = [tr.visit(st) for st in body]
+    # (3) if C: t = A else: t = B   ->   t = A if C else B
+    out = []
+    for st in body:
+        if isinstance(st, ast.If) and len(st.body) == 1 and len(st.orelse) == 1 and all(
+                isinstance(x, ast.Assign) and len(x.targets) == 1 and isinstance(x.targets[0], ast.Name) for x in (st.body[0], st.orelse[0])) \
+                and st.body[0].targets[0].id == st.orelse[0].targets[0].id:
+            out.append(ast.Assign(targets=[ast.Name(id=st.body[0].targets[0].id, ctx=ast.Store())],
+                                  value=ast.IfExp(test=st.test, body=st.body[0].value, orelse=st.orelse[0].value)))
+        else:
+            out.append(st)
+    body = out
+    # (4) if C: return msg ; rest...   ->   if not C: rest (without its final return) ; return msg
+    for _round in range(6):
+        for i, st in enumerate(body):
+            if isinstance(st, ast.If) and not st.orelse and len(st.body) == 1 and isinstance(st.body[0], ast.Return) \
+                    and isinstance(st.body[0].value, ast.Name) and i + 1 < len(body) and isinstance(body[-1], ast.Return) \
+                    and isinstance(body[-1].value, ast.Name) and body[-1].value.id == st.body[0].value.id:
+                inner = body[i + 1:-1]
+                body = body[:i] + ([ast.If(test=_negate(st.test), body=inner, orelse=[])] if inner else []) + [body[-1]]
+                break
+        else:
+            break
+    # (5) a local bound once to an expression (not the message) is substituted into its uses
+    out, lets = [], {}
+    for i, st in enumerate(body):
+        st = _subst(st, lets) if lets else st
+        if isinstance(st, ast.Assign) and len(st.targets) == 1 and isinstance(st.targets[0], ast.Name) and not _is_bound_call(st.value) \
+                and st.targets[0].id not in pnames:
+            name = st.targets[0].id
+            later = [n for s2 in body[i + 1:] for n in ast.walk(s2) if isinstance(n, ast.Name) and n.id == name and isinstance(n.ctx, ast.Store)]
+            if not later and name not in lets:
+                lets[name] = st.value
+                continue
+        out.append(st)
+    for st in out:
+        ast.fix_missing_locations(st)
+    return out
+
+
+_ONCE = {}
+
+
+def check_module_constants(node, glob, local_names):
+    """a bare module-level name used as a constant must be assigned exactly once in its module"""
+    for n in ast.walk(node):
+        if not (isinstance(n, ast.Name) and isinstance(n.ctx, ast.Load)) or n.id in local_names or n.id not in glob:
+            continue
+        v = glob[n.id]
+        if inspect.isclass(v) or inspect.isroutine(v) or inspect.ismodule(v):
+            continue
+        key = (glob.get("__name__"), n.id)
+        if key not in _ONCE:
+            try:
+                tree = ast.parse(inspect.getsource(sys.modules[glob["__name__"]]))
+                cnt = 0
+                for t in ast.walk(tree):
+                    if isinstance(t, (ast.Assign, ast.AnnAssign, ast.AugAssign)):
+                        tg = t.targets if isinstance(t, ast.Assign) else [t.target]
+                        cnt += sum(1 for x in tg for y in ast.walk(x) if isinstance(y, ast.Name) and y.id == n.id)
+                    elif isinstance(t, ast.Global) and n.id in t.names:
+                        cnt += 2
+                    elif isinstance(t, (ast.Import, ast.ImportFrom)) and any((a.asname or a.name) == n.id for a in t.names):
+                        cnt = 1 if cnt == 0 else cnt + 1
+                _ONCE[key] = (cnt == 1)
+            except Exception:  # noqa
+                _ONCE[key] = False
+        if not _ONCE[key]:
+            raise Opaque("module-level name %s is not assigned exactly once" % n.id)
 
 
 def factory_params(fn):
@@ -499,7 +752,33 @@ def analyse_factory(domname, regcls, fname, fn):
     params = factory_params(fn)
     pnames = [p["name"] for p in params]
     pset = set(pnames)
-    aliases = {}   # local -> (param, const object)
+    used_helpers = []
+    body = normalise_factory(body, glob, regcls, pnames, used_helpers)
+    for h in used_helpers:
+        tie(h, "helper %s inlined in factory %s.%s" % (h.__qualname__, domname, fname))
+
+    def fconst(node):
+        """value of an expression that mentions no parameter"""
+        check_module_constants(node, glob, pset | {"self"})
+        return eval_const(node, glob)
+
+    def is_none(test):
+        if isinstance(test, ast.Compare) and len(test.ops) == 1 and isinstance(test.ops[0], ast.Is) \
+                and isinstance(test.left, ast.Name) and test.left.id in pset \
+                and isinstance(test.comparators[0], ast.Constant) and test.comparators[0].value is None:
+            return test.left.id
+        return None
+
+    def alias(e):
+        """`P if P is not None else CONST` (either orientation) -> (P, CONST expression)"""
+        if isinstance(e, ast.IfExp):
+            p = is_not_none(e.test)
+            if p and isinstance(e.body, ast.Name) and e.body.id == p and not (names_in(e.orelse) & pset):
+                return p, e.orelse
+            p = is_none(e.test)
+            if p and isinstance(e.orelse, ast.Name) and e.orelse.id == p and not (names_in(e.body) & pset):
+                return p, e.body
+        return None
 
     def proj(e):
         """expression over exactly one parameter -> (param, key, default or None)"""
@@ -510,10 +789,24 @@ def analyse_factory(domname, regcls, fname, fn):
         if isinstance(e, ast.Attribute) and isinstance(e.value, ast.Name):
             if e.value.id in pset:
                 return e.value.id, "." + e.attr, None
-            if e.value.id in aliases:
-                p, cobj = aliases[e.value.id]
-                return p, "." + e.attr, jval(getattr(cobj, e.attr))
             raise Opaque("attribute of " + e.value.id)
+        if isinstance(e, ast.Attribute) and alias(e.value):
+            p, cexpr = alias(e.value)
+            try:
+                cobj = fconst(cexpr)
+            except Opaque:
+                raise
+            except Exception:  # noqa
+                raise Opaque("alias default")
+            return p, "." + e.attr, jval(getattr(cobj, e.attr))
+        if alias(e):
+            p, cexpr = alias(e)
+            try:
+                return p, "", jval(fconst(cexpr))
+            except Opaque:
+                raise
+            except Exception:  # noqa
+                raise Opaque("alias default")
         if isinstance(e, ast.Call) and not e.keywords:
             if isinstance(e.func, ast.Attribute) and not e.args and isinstance(e.func.value, ast.Name) and e.func.value.id in pset:
                 return e.func.value.id, "." + e.func.attr + "()", None
@@ -527,20 +820,20 @@ def analyse_factory(domname, regcls, fname, fn):
         raise Opaque("expression " + ast.unparse(e))
 
     def expr(e):
-        used = names_in(e) & (pset | set(aliases))
+        used = names_in(e) & pset
         if not used and not (names_in(e) & {"self"}):
             try:
-                return {"const": jval(eval_const(e, glob))}
+                return {"const": jval(fconst(e))}
             except Opaque:
                 raise
             except Exception:  # noqa
                 raise Opaque("constant " + ast.unparse(e))
-        if isinstance(e, ast.IfExp):
+        if isinstance(e, ast.IfExp) and not alias(e):
             p, key, d = proj(e.test)
             if d is not None:
                 raise Opaque("conditional on alias")
             try:
-                c1, c2 = jval(eval_const(e.body, glob)), jval(eval_const(e.orelse, glob))
+                c1, c2 = jval(fconst(e.body)), jval(fconst(e.orelse))
             except Exception:  # noqa
                 raise Opaque("conditional branches are not constants")
             return {"cond": [p, key if key else "bool()", c1, c2]}
@@ -573,6 +866,8 @@ def analyse_factory(domname, regcls, fname, fn):
         try:
             reg = eval_const(c.func.func.value, glob)
         except Exception:  # noqa
+            raise Opaque("bound registry")
+        if not inspect.isclass(reg):
             raise Opaque("bound registry")
         ops = []
         for kw in c.keywords:
@@ -678,25 +973,7 @@ def analyse_factory(domname, regcls, fname, fn):
         reg, name = target
         return sorted({r["cls"] for r in regs if r["reg"] == reg and r["name"] == name})
 
-    i = 0
-    # pre statements
-    while i < len(body) and isinstance(body[i], ast.If):
-        st = body[i]
-        p = is_not_none(st.test)
-        if p is None or len(st.body) != 1 or len(st.orelse) != 1:
-            raise Opaque("pre statement")
-        s1, s2 = st.body[0], st.orelse[0]
-        if not (isinstance(s1, ast.Assign) and isinstance(s2, ast.Assign) and isinstance(s1.targets[0], ast.Name)
-                and isinstance(s2.targets[0], ast.Name) and s1.targets[0].id == s2.targets[0].id
-                and isinstance(s1.value, ast.Name) and s1.value.id == p):
-            raise Opaque("pre statement")
-        try:
-            cobj = eval_const(s2.value, glob)
-        except Exception:  # noqa
-            raise Opaque("alias default")
-        aliases[s1.targets[0].id] = (p, cobj)
-        i += 1
-    rest = body[i:]
+    rest = body
     if len(rest) == 1 and isinstance(rest[0], ast.Return):
         reg, name, ops = bound_call(rest[0].value)
     else:
